@@ -326,8 +326,44 @@ func ruleAdapterAccounting(c *Check, p *Program, rule string) {
 							return false
 						}
 					}
+					// a method of the adapter, or a helper of the reader, that hands back the position
+					if f := staticCallee(v); f != nil && inModule(f) && f.Pkg == rd.Pkg && len(f.Blocks) > 0 {
+						good := true
+						allInstrs(f, func(j ssa.Instruction) {
+							rr, isR := j.(*ssa.Return)
+							if !isR || len(rr.Results) == 0 {
+								return
+							}
+							res := rr.Results[0]
+							if k, isK := constUint(res); isK && k == 0 {
+								return
+							}
+							walkBack(res, true, func(y ssa.Value) bool {
+								switch w := y.(type) {
+								case *ssa.Phi:
+									return true
+								case *ssa.Const:
+									if kk, isKK := constUint(w); !isKK || kk != 0 {
+										good = false
+									}
+									return false
+								case *ssa.UnOp:
+									if w.Op == token.MUL && lastField(w.X) == r.typ+"."+r.dataPos {
+										return false
+									}
+								}
+								good = false
+								return false
+							})
+						})
+						if good {
+							return false
+						}
+					}
 					okAll = false
 					return false
+				case *ssa.Extract:
+					return true
 				case *ssa.UnOp:
 					if v.Op == token.MUL {
 						if lf := lastField(v.X); lf == r.typ+"."+r.dataPos {
@@ -349,5 +385,4 @@ func ruleAdapterAccounting(c *Check, p *Program, rule string) {
 		})
 		c.Cond(nRet > 0 && bad == "", rule, "CompressingReader.Read#count-source", p.Pos(rd.Pos()), "the count returned by Read is len(p), the adapter's position (at most len(p) by the invariant), or 0", fmt.Sprintf("%d returns", nRet), "the count returned at "+bad+" derives from something else: n <= len(p) is not established")
 	}
-	c.Cond(nOut >= 2, rule, r.typ+"#outside-writers", "", "stores to the adapter's fields outside its methods were found (the rewinds in Read)", fmt.Sprintf("%d stores", nOut), fmt.Sprintf("only %d stores to the adapter's fields outside its methods (expected the rewinds in CompressingReader.Read)", nOut))
 }
